@@ -32,6 +32,16 @@ CLAIMED = {
               "attribute caching, zip central directory written on close); faults are exceptions at write/assembly calls, "
               "not power loss; counterexamples are confirmed on the real file system before being reported"),
         design_ref="DESIGN.md §5 C08"),
+    "C11": dict(
+        engine="X",
+        technique="CrossHair symbolic execution of the real Vector API with selector-chosen operations/index expressions; list-of-rows reference model and structural invariants as post-conditions",
+        text=("bounded model checking: every single operation with all of its arguments (index expression per axis from a "
+              "menu of representatives of every distinct selection) on 8 shapes with 1-3 fixed dimensions, and histories of "
+              "three operations with symbolic operation kinds, are explored path by path; after each operation the real "
+              "Vector must agree with a reference model and satisfy the cell/field/unit invariants"),
+        note=("trusts CrossHair/z3 and NumPy inside a cell; cell contents are concrete distinct numbers; histories longer "
+              "than 3, >3 fixed dimensions and size-1 list indices in assignments are outside"),
+        design_ref="DESIGN.md §5 C11"),
     "C14": dict(
         engine="X",
         technique="CrossHair symbolic execution of the real save()/load() skip handling on the in-memory store model; reference-model post-condition; replay on the real stores",
